@@ -55,8 +55,17 @@ type GenOpts struct {
 	Syn         bool // mix in synonym documents
 	DVMask      int
 	LongAP      bool
-	FixedFields bool // every document carries every field name in play (identical field lists)
-	LongIDs     bool // occasionally an _id at the byte-length boundaries of its varint length prefix (127..5000 bytes)
+	FixedFields bool  // every document carries every field name in play (identical field lists)
+	LongIDs     bool  // occasionally an _id at the byte-length boundaries of its varint length prefix (127..5000 bytes)
+	FieldSel    []int // when set: the field names in play are FieldNames[FieldSel[0..NFields)] instead of a prefix of FieldNames
+}
+
+// FName is the name of the fi-th field in play.
+func (o GenOpts) FName(fi int) string {
+	if len(o.FieldSel) > 0 {
+		return FieldNames[o.FieldSel[fi%len(o.FieldSel)]]
+	}
+	return FieldNames[fi]
 }
 
 func RandOpts(r *Rng, nd int, idbase string) GenOpts {
@@ -106,7 +115,7 @@ func genTok(r *Rng, o GenOpts, term string, compNames []string) Tok {
 }
 
 func genField(r *Rng, o GenOpts, fi int) Field {
-	name := FieldNames[fi]
+	name := o.FName(fi)
 	f := Field{Name: name, Typ: byte('a' + r.Intn(3))}
 	if r.Bool() {
 		f.Stored = true
@@ -125,7 +134,11 @@ func genField(r *Rng, o GenOpts, fi int) Field {
 			}
 		}
 	}
-	if o.DVMask&(1<<fi) != 0 {
+	dvbit := fi
+	if len(o.FieldSel) > 0 {
+		dvbit = o.FieldSel[fi%len(o.FieldSel)] // the doc-value option belongs to the name, not to the position
+	}
+	if o.DVMask&(1<<dvbit) != 0 {
 		f.DV = true
 	}
 	nt := r.Intn(4)
@@ -166,7 +179,7 @@ func GenBatch(r *Rng, o GenOpts) Batch {
 		names := map[string]bool{}
 		if o.FixedFields {
 			for fi := 0; fi < o.NFields; fi++ {
-				names[FieldNames[fi]] = true
+				names[o.FName(fi)] = true
 				d.Fields = append(d.Fields, genField(r, o, fi))
 				if r.Chance(4) { // multi-valued
 					d.Fields = append(d.Fields, genField(r, o, fi))
@@ -176,14 +189,14 @@ func GenBatch(r *Rng, o GenOpts) Batch {
 			ninst := r.Intn(o.NFields + 2)
 			for k := 0; k < ninst; k++ {
 				fi := r.Intn(o.NFields)
-				names[FieldNames[fi]] = true
+				names[o.FName(fi)] = true
 				d.Fields = append(d.Fields, genField(r, o, fi))
 			}
 		}
 		if r.Chance(5) {
 			// a stored array: many values of one field, each with its index path as array positions
 			fi := r.Intn(o.NFields)
-			names[FieldNames[fi]] = true
+			names[o.FName(fi)] = true
 			k := 2 + r.Intn(14)
 			nested := r.Chance(3)
 			for e := 0; e < k; e++ {
